@@ -83,8 +83,12 @@ func union(d dmodel.Dialect, name, schemaName, prefix string, parts []*dmodel.Mo
 // crossFKs adds a nullable bigint column cx (and sometimes cy) with a foreign key to the single-column
 // integer primary key of another table to about two thirds of the tables: chains, fan-in and cycles
 // across the parts of a union.
-func crossFKs(m *dmodel.Model, r *rand.Rand) {
+func crossFKs(m *dmodel.Model, r *rand.Rand, acyclic bool) {
 	var targets []*dmodel.Table
+	pos := map[string]int{}
+	for i, t := range m.Tables {
+		pos[t.Name] = i
+	}
 	for _, t := range m.Tables {
 		if t.PK != nil && len(t.PK.Cols) == 1 {
 			if c := t.Column(t.PK.Cols[0]); c != nil && c.Type.Class == dmodel.CInt {
@@ -103,6 +107,9 @@ func crossFKs(m *dmodel.Model, r *rand.Rand) {
 		n := 1 + r.IntN(2)
 		for k := 0; k < n; k++ {
 			ref := targets[r.IntN(len(targets))]
+			if acyclic && pos[ref.Name] >= pos[t.Name] {
+				continue
+			}
 			pk := ref.Column(ref.PK.Cols[0])
 			cn := []string{"cx", "cy"}[k]
 			if t.Column(cn) != nil {
@@ -149,6 +156,8 @@ type Input struct {
 	From2   *dmodel.Model // second schema of the current realm (nil: single-schema input)
 	To2     *dmodel.Model // second schema of the desired realm
 	Realm   bool          // diff with RealmDiff on realms instead of SchemaDiff
+	Scoped  bool          // plan with an empty schema qualifier (plan scoped to the connected schema)
+	Indent  string        // PlanOptions.Indent
 	Edits   []string      // ids of the edit walk From -> To (documentation only)
 }
 
@@ -170,7 +179,7 @@ func bigModels(seed uint64, d dmodel.Dialect) (all, half, aux *dmodel.Model) {
 		ident[i] = i
 	}
 	all = union(d, "all", schemaOf(d), "", pool, ident)
-	crossFKs(all, r)
+	crossFKs(all, r, false)
 	idx := r.Perm(len(pool))
 	pick := func(ix []int) (ms []*dmodel.Model) {
 		for _, i := range ix {
@@ -180,7 +189,7 @@ func bigModels(seed uint64, d dmodel.Dialect) (all, half, aux *dmodel.Model) {
 	}
 	h := idx[:len(pool)/2]
 	half = union(d, "half", schemaOf(d), "", pick(h), h)
-	crossFKs(half, r)
+	crossFKs(half, r, false)
 	rest := idx[len(pool)/2:]
 	if len(rest) > 6 {
 		rest = rest[:6]
@@ -188,8 +197,41 @@ func bigModels(seed uint64, d dmodel.Dialect) (all, half, aux *dmodel.Model) {
 	// Tables and enums of the two schemas of one realm must not collide in the HCL name space
 	// (unqualified references): everything in the second schema is prefixed with x.
 	aux = union(d, "aux", secondSchema(d), "x", pick(rest), rest)
-	crossFKs(aux, r)
+	crossFKs(aux, r, false)
 	return all, half, aux
+}
+
+// dagModel is the union of the whole pool with every foreign key that does not point to an EARLIER
+// table removed, plus seeded cross keys to earlier tables only: the reference graph is acyclic, so
+// the planners order the tables by their dependencies instead of detaching all foreign keys (which
+// is what they do for the cyclic unions above).
+func dagModel(seed uint64, d dmodel.Dialect) *dmodel.Model {
+	pool := hclOK(dmodel.Pool(d))
+	ident := make([]int, len(pool))
+	for i := range ident {
+		ident[i] = i
+	}
+	m := union(d, "dag", schemaOf(d), "", pool, ident)
+	// a seeded table order, so that dependencies do not simply follow the declaration order
+	r := rand.New(rand.NewPCG(seed, 0xDA6<<8|uint64(len(d))))
+	r.Shuffle(len(m.Tables), func(i, j int) { m.Tables[i], m.Tables[j] = m.Tables[j], m.Tables[i] })
+	pos := map[string]int{}
+	for i, t := range m.Tables {
+		pos[t.Name] = i
+	}
+	for _, t := range m.Tables {
+		var keep []*dmodel.ForeignKey
+		for _, f := range t.FKs {
+			if pos[f.RefTable] < pos[t.Name] {
+				keep = append(keep, f)
+			}
+		}
+		t.FKs = keep
+	}
+	crossFKs(m, r, true)
+	// declared in yet another seeded order: a table is usually declared BEFORE the tables it references
+	r.Shuffle(len(m.Tables), func(i, j int) { m.Tables[i], m.Tables[j] = m.Tables[j], m.Tables[i] })
+	return m
 }
 
 func schemaOf(d dmodel.Dialect) string {
@@ -239,9 +281,18 @@ func Inputs(seed uint64, d dmodel.Dialect, nEdit int) []*Input {
 	add(&Input{Name: "create-half", To: half})
 	add(&Input{Name: "half-to-all", From: half, To: all})
 	add(&Input{Name: "all-to-half", From: all, To: half})
+	dag := dagModel(seed, d)
+	add(&Input{Name: "create-dag", To: dag})
+	add(&Input{Name: "drop-dag", From: dag})
+	add(&Input{Name: "create-dag-indent", To: dag, Indent: "  "})
+	add(&Input{Name: "create-half-scoped", To: half, Scoped: true})
+	add(&Input{Name: "half-to-all-scoped", From: half, To: all, Scoped: true})
 	if realms {
 		add(&Input{Name: "realm-create", To: all, To2: aux, Realm: true})
 		add(&Input{Name: "realm-drop", From: all, From2: aux, Realm: true})
+		// a change in two schemas planned with a plan scoped to one: refused (the refusal is an output)
+		aux2, _ := goodWalk(d, aux, 5, rand.New(rand.NewPCG(seed, 0xA2<<8|uint64(len(d)))))
+		add(&Input{Name: "realm-two-schemas-scoped", From: half, From2: aux, To: all, To2: aux2, Realm: true, Scoped: true})
 	}
 	// the edit walks are independent of each other (own PRNG streams): built in parallel
 	edits := make([]*Input, nEdit)
